@@ -214,7 +214,8 @@ def solution_single_time_step(
         FieldMngt.sr_inhb,
         FieldMngt.bunds,
         FieldMngt.z_bund,
-        FieldMngt.curve_number_adj_pct,
+        # the percentage only applies when the adjustment is switched on
+        FieldMngt.curve_number_adj_pct if FieldMngt.curve_number_adj else 0,
         Soil.cn,
         Soil.adj_cn,
         Soil.z_cn,
